@@ -150,8 +150,13 @@ def run_case(case, ctx, bm):
     _orig_fix = getattr(sp, "_fixUpsideDown", None)
     if _orig_fix is not None:
         def _fix_rec(*a, **k):          # observation only: did the corrective 'un-invert' path run during this FK?
-            uninverted[0] = True
-            ctx.bump("corrective_paths", "un-invert")
+            # ... and was it warranted, i.e. did the solver really leave the top plate below the base (in the base's own frame)?
+            try:
+                relz = float((se3.inv(sp.getBottomT().gTM()) @ sp.getTopT().gTM())[2, 3])
+            except Exception:
+                relz = 0.0
+            uninverted[0] = "warranted" if relz < 0 else "unwarranted"
+            ctx.bump("corrective_paths", "un-invert:" + uninverted[0])
             return _orig_fix(*a, **k)
         sp._fixUpsideDown = _fix_rec
     rels = list(case["rels"])
@@ -207,9 +212,11 @@ def run_case(case, ctx, bm):
                 key = "fk_miss/mode%d/%s/%s/%s" % (mode, state, where, "valid" if v2 else "invalid")
                 # two mechanisms with findings of their own (keyed by what happened, not by where):
                 Lgot, _, _ = model.lengths(model.B, got)
-                if uninverted[0]:
+                if uninverted[0] == "warranted":
                     key = "fk_miss/solver_landed_upside_down_then_un-invert"
-                elif tol.maxabs(np.asarray(Lgot).reshape(-1) - L) <= 1e-6 * h and dist2 <= 1e-9 * h + dist and le <= 1e-6 * h:
+                elif uninverted[0] == "unwarranted":
+                    key = "fk_miss/un-invert_of_an_upright_solution/" + state
+                elif mode == 0 and v2 and tol.maxabs(np.asarray(Lgot).reshape(-1) - L) <= 1e-6 * h and dist2 <= 1e-9 * h + dist and le <= 1e-6 * h:
                     key = "fk_miss/other_assembly_mode"
                 viol(clause, key,
                      pos_err_over_h=dist / h, rot_err=ang, len_err_over_h=le / h, published_pos_err_over_h=dist2 / h, rel=rel, state=state, where=where)
